@@ -260,8 +260,11 @@ class MessagePackRpc(MessagePackDocument):
 
         if not six.PY2:
             if isinstance(msgname_or_error, bytes):
-                msgname_or_error = msgname_or_error.decode(
+                try:
+                    msgname_or_error = msgname_or_error.decode(
                                                    self.default_string_encoding)
+                except UnicodeDecodeError as e:
+                    raise ValidationError(msgname_or_error, "%%r: %r" % (e,))
 
         if msgtype == MessagePackRpc.MSGPACK_REQUEST \
                                        and message == MessagePackRpc.REQUEST:
